@@ -100,6 +100,8 @@ def run(tier):
                        ("wecc/wecc.raw", "wecc/wecc_gencls.dyr"), ("ieee14/ieee14_ieeevc.raw", "ieee14/ieee14_ieeevc.dyr")][:5 if quick else 8]:
         if os.path.exists(os.path.join("/repo/andes/cases", dyr_)):
             tasks.append(dict(kind="dyr", sid="src[%s]" % dyr_, case=raw_, dyr=dyr_))
+            if any(x in dyr_ for x in ("ieee14.dyr", "wecc_full", "N44")):
+                tasks.append(dict(kind="dyr", sid="src[%s|remote buses]" % dyr_, case=raw_, dyr=dyr_, remote=True))
     ng = 8 if quick else 60
     tasks.append(dict(kind="source", sid="src[generated MATPOWER cases]", generated_mpc=[(k, (100.0, 50.0, 100.0, 400.0)[k % 4]) for k in range(ng)]))
     # fill in the idx of the altered device
